@@ -228,8 +228,16 @@ def run(ctx, ck):
     ck.floor('assignments of self.current', len(asg), 1)
     for a in asg:
         v = a.value
-        ok = isinstance(v, ast.Call) and (dotted(v.func) or '').endswith('linalg.solve') and \
-            [norm(x) for x in v.args] == ['self.Z', 'self.rhs'] and not v.keywords
+        ok = isinstance(v, ast.Call) and (dotted(v.func) or '').endswith('linalg.solve')
+        if ok:
+            # solve(a, b): positionally or by keyword
+            ops = [norm(x) for x in v.args]
+            kw_ = {k_.arg: norm(k_.value) for k_ in v.keywords}
+            if len(ops) < 1 and 'a' in kw_:
+                ops.append(kw_.pop('a'))
+            if len(ops) < 2 and 'b' in kw_:
+                ops.append(kw_.pop('b'))
+            ok = ops == ['self.Z', 'self.rhs'] and not kw_
         ck.ob('R-DEP.solve-operands', cc.qual + '|self.current', ok, cc.loc(a),
               'self.current = %s' % norm(v))
 
